@@ -1,3 +1,280 @@
-import ElfioVerif.Model.Validate
+/-
+C20 — `validate()`.
+
+  * `validate_overlap`      two non-empty, non-NOBITS sections with non-zero offsets whose file
+                            ranges intersect are reported (and `validate_overlap_only_if`: nothing
+                            else is reported as an overlap)
+  * `validate_skew`         a PT_LOAD segment with file size > 0 whose virtual address disagrees
+                            with the address of the program section found at its file offset is
+                            reported (and `validate_skew_only_if`)
+  * `validate_overlap_witness_prefix`   the condition before commit deacba8 (`(type & SHT_NOBITS) == 0`)
+                            did not report two SHT_REL sections at the same offset (F10)
+  * `validate_silent`       no complaint for an object whose layout satisfies `LayoutOk`
+                            (pairwise disjoint file ranges; program sections at the same distance
+                            from a loadable segment's start in file and memory) — the predicate
+                            that C04's `layout_disjoint` / `member_equidistant` establish for the
+                            object left by a successful `save`.
+
+The overlap condition, `find_prog_section_for_offset`'s match and the address comparison are the
+generated expressions (Gen/SitesValidate.lean, Gen/Funcs.lean).
+-/
+import ElfioVerif.Lemmas.ValidateL
+import ElfioVerif.Props.C04
 namespace ElfioVerif.C20
+open ElfioVerif Gen
+
+/-! ### overlaps are reported -/
+
+/-- whenever two non-empty sections that occupy file space (type ≠ SHT_NOBITS; offsets > 0, as the
+    code demands) intersect in the file, `validate` reports the pair -/
+theorem validate_overlap (o : Obj) (i j : Nat) (a b : SecBuf)
+    (hij : i < j) (hi : o.secs[i]? = some a) (hj : o.secs[j]? = some b)
+    (hta : a.stype ≠ BitVec.ofNat 32 SHT_NOBITS) (htb : b.stype ≠ BitVec.ofNat 32 SHT_NOBITS)
+    (hsa : 0 < a.size.toNat) (hsb : 0 < b.size.toNat)
+    (hoa : 0 < a.offset.toNat) (hob : 0 < b.offset.toNat)
+    (hwa : a.offset.toNat + a.size.toNat < 18446744073709551616)
+    (hwb : b.offset.toNat + b.size.toNat < 18446744073709551616)
+    (hint : RangesIntersect a b) :
+    Complaint.overlap i j ∈ validate o := by
+  have hp : overlapPair a b = true :=
+    (overlapPair_iff a b hwa hwb).2 ⟨hta, htb, hsa, hsb, hoa, hob, hint⟩
+  have := mem_overlapComplaints o.secs 0 i j a b hij hi hj hp
+  simp only [Nat.zero_add] at this
+  exact List.mem_append_left _ this
+
+/-- and only such pairs: an overlap complaint names `i < j` meeting the code's condition; without
+    wrap-around that condition is exactly "both occupy file space, non-empty, offsets > 0, ranges
+    intersect" -/
+theorem validate_overlap_only_if (o : Obj) (p q : Nat) (h : Complaint.overlap p q ∈ validate o) :
+    ∃ a b, p < q ∧ o.secs[p]? = some a ∧ o.secs[q]? = some b ∧ overlapPair a b = true ∧
+      (a.offset.toNat + a.size.toNat < 18446744073709551616 →
+       b.offset.toNat + b.size.toNat < 18446744073709551616 →
+        a.stype ≠ BitVec.ofNat 32 SHT_NOBITS ∧ b.stype ≠ BitVec.ofNat 32 SHT_NOBITS ∧
+        0 < a.size.toNat ∧ 0 < b.size.toNat ∧ 0 < a.offset.toNat ∧ 0 < b.offset.toNat ∧
+        RangesIntersect a b) := by
+  unfold validate at h
+  rw [List.mem_append] at h
+  rcases h with h | h
+  · obtain ⟨i, j, a, b, hp, hq, hij, hi, hj, ho⟩ := of_mem_overlapComplaints o.secs 0 p q h
+    simp only [Nat.zero_add] at hp hq
+    subst hp; subst hq
+    exact ⟨a, b, hij, hi, hj, ho, fun hwa hwb => (overlapPair_iff a b hwa hwb).1 ho⟩
+  · rw [List.mem_filterMap] at h
+    obtain ⟨⟨g, k⟩, -, he⟩ := h
+    split at he <;> simp at he
+
+/-- non-vacuity: two PROGBITS sections at offsets 100 (size 20) and 110 (size 4) -/
+example :
+    let s1 : SecBuf := { SecBuf.fresh .c64 0 with stype := 1, size := 20, offset := 100 }
+    let s2 : SecBuf := { SecBuf.fresh .c64 0 with stype := 1, size := 4, offset := 110 }
+    let o : Obj := { secs := [SecBuf.fresh .c64 0, s1, s2] }
+    Complaint.overlap 1 2 ∈ validate o := by
+  intro s1 s2 o
+  exact validate_overlap o 1 2 s1 s2 (by decide) rfl rfl (by decide) (by decide) (by decide) (by decide)
+    (by decide) (by decide) (by decide) (by decide) (by decide)
+
+/-! ### F10: the condition before the fix -/
+
+/-- `validate`'s overlap condition as it was before commit deacba8 (documentation only):
+    `(a->get_type() & SHT_NOBITS) == 0` instead of `a->get_type() != SHT_NOBITS` -/
+def validate_overlap_prefix (a_type b_type : BitVec 32) (a_size b_size a_offset b_offset : BitVec 64) : Bool :=
+  ((a_type &&& BitVec.ofNat 32 SHT_NOBITS) == 0) && ((b_type &&& BitVec.ofNat 32 SHT_NOBITS) == 0) &&
+  BitVec.ult 0 a_size && BitVec.ult 0 b_size && BitVec.ult 0 a_offset && BitVec.ult 0 b_offset &&
+  (is_offset_in_section a_offset b_offset b_size || is_offset_in_section (a_offset + a_size - 1) b_offset b_size ||
+   is_offset_in_section b_offset a_offset a_size || is_offset_in_section (b_offset + b_size - 1) a_offset a_size)
+
+/-- F10 (fixed by deacba8): two SHT_REL sections (type 9 has bit 3 set) at the same offset were not
+    reported by the old condition, and are reported by the present one -/
+theorem validate_overlap_witness_prefix :
+    validate_overlap_prefix (BitVec.ofNat 32 SHT_REL) (BitVec.ofNat 32 SHT_REL) 16 16 64 64 = false ∧
+    Gen.validate_overlap (BitVec.ofNat 32 SHT_REL) (BitVec.ofNat 32 SHT_REL) 16 16 64 64 = true := by
+  decide
+
+/-! ### address conflicts are reported -/
+
+/-- a loadable segment with file size > 0 whose virtual address differs from the address that the
+    program section found at its file offset assigns to that offset is reported -/
+theorem validate_skew (o : Obj) (h : Nat) (g : Seg) (s : SecBuf)
+    (hg : o.segs[h]? = some g)
+    (hload : g.stype = BitVec.ofNat 32 PT_LOAD) (hfs : 0 < g.filesz.toNat)
+    (hfind : findProgSection o.secs g.offset = some s)
+    (hne : s.addr + (g.offset - s.offset) ≠ g.vaddr) :
+    Complaint.conflict h ∈ validate o := by
+  unfold validate
+  apply List.mem_append_right
+  rw [List.mem_filterMap]
+  refine ⟨(g, h), ?_, ?_⟩
+  · rw [List.mem_zipIdx_iff_getElem?]; exact hg
+  · have hc : segConflict o.secs g = true := by
+      unfold segConflict
+      rw [hfind]
+      simp only [hload, beq_self_eq_true, hfs, decide_true, Bool.and_self, Bool.true_and,
+        validate_addr_ne, get_virtual_addr, bne_iff_ne, ne_eq]
+      intro he; apply hne; rw [← he]
+      rw [bv_add_sub_assoc]
+    simp [hc]
+
+/-- and only such segments are reported -/
+theorem validate_skew_only_if (o : Obj) (h : Nat) (hc : Complaint.conflict h ∈ validate o) :
+    ∃ g s, o.segs[h]? = some g ∧ g.stype = BitVec.ofNat 32 PT_LOAD ∧ 0 < g.filesz.toNat ∧
+      findProgSection o.secs g.offset = some s ∧ s.addr + (g.offset - s.offset) ≠ g.vaddr := by
+  unfold validate at hc
+  rw [List.mem_append] at hc
+  rcases hc with hc | hc
+  · exact absurd hc (conflict_not_mem_overlapComplaints _ _ _)
+  · rw [List.mem_filterMap] at hc
+    obtain ⟨⟨g, k⟩, hm, he⟩ := hc
+    rw [List.mem_zipIdx_iff_getElem?] at hm
+    by_cases hcf : segConflict o.secs g = true
+    · simp only [hcf, if_true, Option.some.injEq, Complaint.conflict.injEq] at he
+      subst he
+      unfold segConflict at hcf
+      split at hcf
+      · exact Bool.noConfusion hcf
+      · rename_i s hs
+        simp only [Bool.and_eq_true, beq_iff_eq, decide_eq_true_eq, validate_addr_ne,
+          get_virtual_addr, bne_iff_ne, ne_eq] at hcf
+        refine ⟨g, s, hm, hcf.1.1, hcf.1.2, hs, ?_⟩
+        intro he; apply hcf.2; rw [← he, bv_add_sub_assoc]
+    · simp [hcf] at he
+
+/-- non-vacuity: a PT_LOAD at offset 4096 whose vaddr is one byte off -/
+example :
+    let s1 : SecBuf := { SecBuf.fresh .c64 0 with stype := 1, size := 20, offset := 4096, addr := 0x401000 }
+    let g : Seg := { stype := 1, offset := 4096, vaddr := 0x401001, filesz := 20 }
+    let o : Obj := { secs := [SecBuf.fresh .c64 0, s1], segs := [g] }
+    Complaint.conflict 0 ∈ validate o := by
+  intro s1 g o
+  exact validate_skew o 0 g s1 rfl (by decide) (by decide) rfl (by decide)
+
+/-! ### silence on well laid out objects -/
+
+theorem validate_silent (o : Obj) (h : LayoutOk o) : validate o = [] := by
+  unfold validate
+  rw [List.append_eq_nil_iff]
+  constructor
+  · apply overlapComplaints_eq_nil
+    intro i j a b hij hi hj
+    have ha : a ∈ o.secs := List.mem_of_getElem? hi
+    have hb : b ∈ o.secs := List.mem_of_getElem? hj
+    cases hp : overlapPair a b with
+    | false => rfl
+    | true =>
+      exfalso
+      -- the guard part of the condition does not depend on wrap-around
+      have hg : a.stype ≠ BitVec.ofNat 32 SHT_NOBITS ∧ b.stype ≠ BitVec.ofNat 32 SHT_NOBITS ∧
+          0 < a.size.toNat ∧ 0 < b.size.toNat := by
+        unfold overlapPair Gen.validate_overlap at hp
+        simp only [Bool.and_eq_true, bne_iff_ne, ne_eq] at hp
+        have e0 : (BitVec.signExtend 64 0#32) = 0#64 := by decide
+        rw [e0] at hp
+        have pos : ∀ x : BitVec 64, BitVec.ult 0#64 x = true → 0 < x.toNat := by
+          intro x; simp [BitVec.ult]
+        exact ⟨hp.1.1.1.1.1.1, hp.1.1.1.1.1.2, pos _ hp.1.1.1.1.2, pos _ hp.1.1.1.2⟩
+      have hwa := h.nowrap a ha hg.1 hg.2.2.1
+      have hwb := h.nowrap b hb hg.2.1 hg.2.2.2
+      obtain ⟨h1, h2, h3, h4, h5, h6, h7⟩ := (overlapPair_iff a b hwa hwb).1 hp
+      exact h.disjoint i j a b hij hi hj h1 h2 h3 h4 h5 h6 h7
+  · rw [List.filterMap_eq_nil_iff]
+    rintro ⟨g, k⟩ hm
+    have hgm : g ∈ o.segs := by
+      rw [List.mem_zipIdx_iff_getElem?] at hm; exact List.mem_of_getElem? hm
+    have hcf : segConflict o.secs g = false := by
+      unfold segConflict
+      split
+      · rfl
+      · rename_i s hs
+        cases hl : (g.stype == BitVec.ofNat 32 PT_LOAD) with
+        | false => simp
+        | true =>
+          cases hf : decide (0 < g.filesz.toNat) with
+          | false => simp
+          | true =>
+            simp only [Bool.and_self, Bool.true_and, validate_addr_ne, get_virtual_addr,
+              bne_eq_false_iff_eq]
+            have hl' : g.stype = BitVec.ofNat 32 PT_LOAD := by simpa using hl
+            have hf' : 0 < g.filesz.toNat := by simpa using hf
+            unfold findProgSection at hs
+            have hsm := List.mem_of_find?_eq_some hs
+            have hsp := List.find?_some hs
+            simp only [find_prog_section_match, Bool.and_eq_true, beq_iff_eq] at hsp
+            have hsz : 0 < s.size.toNat := by
+              have := hsp.2
+              simp only [is_offset_in_section, Bool.and_eq_true, BitVec.ule, BitVec.ult,
+                decide_eq_true_eq, BitVec.toNat_add, Nat.reducePow] at this
+              have h1 := s.offset.isLt
+              rcases Nat.eq_zero_or_pos s.size.toNat with hz | hz
+              · rw [hz, Nat.add_zero, Nat.mod_eq_of_lt h1] at this; omega
+              · exact hz
+            have hnb : s.stype ≠ BitVec.ofNat 32 SHT_NOBITS := by rw [hsp.1]; decide
+            have hw := h.nowrap s hsm hnb hsz
+            have hin := (is_offset_in_section_iff _ _ _ hw).1 hsp.2
+            have := h.equidistant g hgm hl' hf' s hsm hsp.1 hin.1 hin.2
+            rw [← this, bv_add_sub_assoc]
+    simp [hcf]
+
+/-- non-vacuity: header, one PROGBITS member of a PT_LOAD, one loose section -/
+example :
+    let s1 : SecBuf := { SecBuf.fresh .c64 0 with stype := 1, size := 20, offset := 4096, addr := 0x401000 }
+    let s2 : SecBuf := { SecBuf.fresh .c64 0 with stype := 3, size := 11, offset := 4116 }
+    let g : Seg := { stype := 1, offset := 4096, vaddr := 0x401000, filesz := 20, memsz := 20, secs := [1] }
+    let o : Obj := { secs := [SecBuf.fresh .c64 0, s1, s2], segs := [g] }
+    validate o = [] := by
+  decide
+
+/-! ### silence after `save` -/
+
+/-- **`validate()` returns no complaint for the object left by a successful `save`** of a flat
+    writer-domain object (C04's `save_layoutOk` supplies `LayoutOk`): any number of sections and
+    segments; fewer than 2^16 sections; sections that occupy file space do not carry index 0 and
+    SHT_NULL-typed sections are empty; no cursor wrap-around (`layoutNW`); distinct segment
+    indices; writer-domain side conditions at every selected segment (`layoutDomB false false sel`:
+    members count towards the memory size, members not generated before the segment's turn, no
+    PHDR/offset-0 segment with members), where the selection contains every PT_LOAD segment with
+    file size > 0 (nested PT_NOTE/PT_TLS/… segments need not be selected: `validate` ignores them). -/
+theorem validate_silent_save (o : Obj) (os : OStream) (r : SaveRes) (hdr : Bytes)
+    (hs : save o os = .ok r) (hok : r.ok = true) (hh : o.hdr = some hdr)
+    (hn : o.secs.length < 65536)
+    (h0 : ∀ (i : Nat) (s : SecBuf), o.secs[i]? = some s → s.Occ → s.index ≠ 0)
+    (hnull0 : ∀ s ∈ o.secs, s.stype = BitVec.ofNat 32 SHT_NULL → s.size = 0)
+    (hnw : layoutNW (preSave o) hdr = true) (hnd : (o.segs.map (·.index)).Nodup)
+    (sel : Nat → Bool) (hdom : layoutDomB false false sel (preSave o) hdr = true)
+    (hsel : ∀ g ∈ r.obj.segs, g.stype = BitVec.ofNat 32 PT_LOAD → 0 < g.filesz.toNat → sel g.index = true) :
+    validate r.obj = [] :=
+  validate_silent r.obj (C04.save_layoutOk o os r hdr hs hok hh hn h0 hnull0 hnw hnd sel hdom hsel)
+
+/-- **Silence for the reloaded form**, relative to the loader: if the object obtained by loading the
+    saved bytes reports the same type/size/offset/address for every section and the same
+    type/file size/offset/virtual address for every segment as the object `save` left (C02:
+    the reader reports what the bytes say; C03/C05: the bytes say what the object holds), then
+    `validate` is silent on it too — `validate` reads nothing else (`validate_congr`; in particular
+    the section membership recomputed by the loader is irrelevant).  The composition with the loader
+    model itself is not done here; the correspondence check runs `save, validate, reload, validate`
+    on every generated program. -/
+theorem validate_silent_reloaded (o : Obj) (os : OStream) (r : SaveRes) (hdr : Bytes) (o' : Obj)
+    (hs : save o os = .ok r) (hok : r.ok = true) (hh : o.hdr = some hdr)
+    (hn : o.secs.length < 65536)
+    (h0 : ∀ (i : Nat) (s : SecBuf), o.secs[i]? = some s → s.Occ → s.index ≠ 0)
+    (hnull0 : ∀ s ∈ o.secs, s.stype = BitVec.ofNat 32 SHT_NULL → s.size = 0)
+    (hnw : layoutNW (preSave o) hdr = true) (hnd : (o.segs.map (·.index)).Nodup)
+    (sel : Nat → Bool) (hdom : layoutDomB false false sel (preSave o) hdr = true)
+    (hsel : ∀ g ∈ r.obj.segs, g.stype = BitVec.ofNat 32 PT_LOAD → 0 < g.filesz.toNat → sel g.index = true)
+    (hsecs : o'.secs.map vkey = r.obj.secs.map vkey) (hsegs : o'.segs.map vgkey = r.obj.segs.map vgkey) :
+    validate o' = [] := by
+  rw [validate_congr r.obj o' hsecs hsegs]
+  exact validate_silent_save o os r hdr hs hok hh hn h0 hnull0 hnw hnd sel hdom hsel
+
+/-- non-vacuity: `C04.exObj` (two members of a PT_LOAD, one with an explicit address, and two
+    loose sections) meets every hypothesis, and its `save` succeeds -/
+example : ∀ r, save C04.exObj {} = .ok r → r.ok = true → validate r.obj = [] := by
+  intro r hs hok
+  refine validate_silent_save C04.exObj {} r C04.exHdr hs hok rfl (by decide) ?_ (by decide) (by decide)
+    (by decide) (fun _ => true) (by decide) (fun _ _ _ _ => rfl)
+  intro i s hs ho hi
+  have : ∀ t ∈ C04.exObj.secs, t.index = 0 → ¬ t.Occ := by decide
+  exact this s (List.mem_of_getElem? hs) hi ho
+
+set_option maxRecDepth 100000 in
+example : (match save C04.exObj {} with | .ok r => r.ok | _ => false) = true := by decide
+
 end ElfioVerif.C20
